@@ -774,8 +774,6 @@ def replay(ctx, data):
         return 1
     ok = (check_styles if w.get("kind") == "styles" else check_case)(ctx, w)
     print("replay:", "property holds on this input" if ok else ctx.failures[-1])
-    if ctx.have_runner if hasattr(ctx, "have_runner") else False:
-        pass
     return 0 if ok else 1
 
 
